@@ -22,21 +22,23 @@ use serde_json::{json, Value as J};
 use std::sync::Arc;
 
 pub fn world() -> Hierarchy<Arc<Relation>> {
+    // primary keys are declared on the ids (as a real catalog would)
+    const PK: qrlew::relation::field::Constraint = qrlew::relation::field::Constraint::PrimaryKey;
     let users: Relation = Relation::table().name("users").schema(vec![
-        ("id", DataType::integer_interval(0, 1000)), ("age", DataType::integer_interval(0, 100)),
-        ("city", DataType::text_values(["A".to_string(), "B".to_string(), "C".to_string()])), ("income", DataType::float_interval(0., 1000.)),
+        ("id", DataType::integer_interval(0, 1000), Some(PK)), ("age", DataType::integer_interval(0, 100), None),
+        ("city", DataType::text_values(["A".to_string(), "B".to_string(), "C".to_string()]), None), ("income", DataType::float_interval(0., 1000.), None),
     ].into_iter().collect::<qrlew::relation::Schema>()).size(1000).build();
     let orders: Relation = Relation::table().name("orders").schema(vec![
-        ("id", DataType::integer_interval(0, 10000)), ("user_id", DataType::integer_interval(0, 1000)),
-        ("amount", DataType::float_interval(0., 100.)), ("qty", DataType::integer_interval(0, 10)),
+        ("id", DataType::integer_interval(0, 10000), Some(PK)), ("user_id", DataType::integer_interval(0, 1000), None),
+        ("amount", DataType::float_interval(0., 100.), None), ("qty", DataType::integer_interval(0, 10), None),
     ].into_iter().collect::<qrlew::relation::Schema>()).size(10000).build();
     let products: Relation = Relation::table().name("products").schema(vec![
-        ("pid", DataType::integer_interval(0, 100)), ("price", DataType::float_interval(0., 50.)),
-        ("cat", DataType::text_values(["x".to_string(), "y".to_string()])),
+        ("pid", DataType::integer_interval(0, 100), Some(PK)), ("price", DataType::float_interval(0., 50.), None),
+        ("cat", DataType::text_values(["x".to_string(), "y".to_string()]), None),
     ].into_iter().collect::<qrlew::relation::Schema>()).size(100).build();
     // a table two foreign-key hops away from the privacy unit (items -> orders -> users); the foreign-key columns are not named like the keys they reference
     let items: Relation = Relation::table().name("items").schema(vec![
-        ("id", DataType::integer_interval(0, 100000)), ("order_id", DataType::integer_interval(0, 10000)), ("price", DataType::float_interval(0., 20.)),
+        ("id", DataType::integer_interval(0, 100000), Some(PK)), ("order_id", DataType::integer_interval(0, 10000), None), ("price", DataType::float_interval(0., 20.), None),
     ].into_iter().collect::<qrlew::relation::Schema>()).size(30000).build();
     vec![(vec!["users".to_string()], Arc::new(users)), (vec!["orders".to_string()], Arc::new(orders)), (vec!["products".to_string()], Arc::new(products)), (vec!["items".to_string()], Arc::new(items))].into_iter().collect()
 }
@@ -193,7 +195,7 @@ pub fn eval(case: &J) -> Outcome {
     let relation = match guarded(|| { let q = parse(sql).map_err(|e| e.to_string())?; Relation::try_from(QueryWithRelations::new(&q, &rels)).map_err(|e| e.to_string()) }) {
         Ok(Ok(r)) => r,
         Ok(Err(e)) => { out.tag("trivial"); out.tag("parse-err"); out.imp = json!({"err": e}); return out; }
-        Err((loc, msg)) => { out.tag("trivial"); out.fail(&format!("C18/rules/parse-panic/{}", site_file(&loc)), format!("{sql}: {msg}")); return out; }
+        Err((loc, msg)) => { out.tag("trivial"); out.fail(&format!("C18/rules/parse-panic/{}", site(&loc, &msg)), format!("{sql}: {msg}")); return out; }
     };
     let r = guarded(|| {
         let with_rules = relation.set_rewriting_rules(RewritingRulesSetter::new(&rels, synth.clone(), privacy_unit(), dp.clone(), strategy));
@@ -205,7 +207,7 @@ pub fn eval(case: &J) -> Outcome {
         let all = brute(&with_rules);
         (tree, jelim, scored, all)
     });
-    let (tree, jelim, scored, all) = match r { Ok(x) => x, Err((loc, msg)) => { out.fail(&format!("C18/rules/search-panic/{}", site_file(&loc)), format!("{sql}: {msg}")); out.tag("trivial"); return out; } };
+    let (tree, jelim, scored, all) = match r { Ok(x) => x, Err((loc, msg)) => { out.fail(&format!("C18/rules/search-panic/{}", site(&loc, &msg)), format!("{sql}: {msg}")); out.tag("trivial"); return out; } };
     out.tag(&format!("derivations={}", match scored.len() { 0 => "0", 1..=9 => "1-9", 10..=99 => "10-99", _ => "100+" }));
     if scored.len() < 2 { out.tag("trivial"); }
     // replicate the entry points' filter + max_by on the real selection result
@@ -249,8 +251,8 @@ pub fn eval(case: &J) -> Outcome {
     out.aux = json!({"tree": tree, "hard": strategy == Strategy::Hard, "synthetic": synth.is_some()});
     out.imp = json!({"table_ok": true, "elim": jelim, "select": scored.iter().map(|s| s.0.clone()).collect::<Vec<_>>(), "chosen_dp": chosen_dp, "chosen_pup": chosen_pup,
                      "dp_ok": if strategy == Strategy::Hard { json!(dp_s != "err") } else { J::Null }, "pup_ok": pup_s != "err"});
-    if dp_s == "panic" { if let Err((loc, msg)) = &dp_res { out.fail(&format!("C18/rules/dp-rewrite-panic/{}", site_file(loc)), format!("{sql}: {msg}")); } }
-    if pup_s == "panic" { if let Err((loc, msg)) = &pup_res { out.fail(&format!("C18/rules/pup-rewrite-panic/{}", site_file(loc)), format!("{sql}: {msg}")); } }
+    if dp_s == "panic" { if let Err((loc, msg)) = &dp_res { out.fail(&format!("C18/rules/dp-rewrite-panic/{}", site(loc, msg)), format!("{sql}: {msg}")); } }
+    if pup_s == "panic" { if let Err((loc, msg)) = &pup_res { out.fail(&format!("C18/rules/pup-rewrite-panic/{}", site(loc, msg)), format!("{sql}: {msg}")); } }
     out
 }
 
